@@ -7,6 +7,11 @@ import (
 	"encoding/hex"
 	"encoding/json"
 	"fmt"
+	sdk "github.com/cosmos/cosmos-sdk/types"
+	channeltypes "github.com/cosmos/ibc-go/v8/modules/core/04-channel/types"
+	host "github.com/cosmos/ibc-go/v8/modules/core/24-host"
+	ibcexported "github.com/cosmos/ibc-go/v8/modules/core/exported"
+	oracletypes "github.com/elys-network/elys/x/oracle/types"
 	"os"
 	"runtime"
 	"sort"
@@ -114,6 +119,7 @@ func c19MakeWorker(tier string) KUnitFunc {
 	cw := &c19Worker{lib: NewOpLib()}
 	cw.root = NewWorld(FixtureCfg{})
 	BuildRoot(cw.root, "R1", cw.lib)
+	installBandChannel(cw.root)
 	pid := pidOf()
 	return func(raw json.RawMessage, deadline time.Time) *KStats {
 		var u c19Unit
@@ -333,5 +339,40 @@ func init() {
 		}
 		fmt.Println("replay: recorded finding not reproduced on this tree")
 		return 0
+	}
+}
+
+// installBandChannel leaves behind what an IBC channel handshake between the oracle module and
+// BandChain leaves behind (open channel end, sequences, the channel capability owned by ibc and
+// claimed by the oracle module) and gives one asset a Band ticker: from then on the oracle's
+// band-epoch hook (every 15 s, in begin-block) sends a price request packet — a begin-block action
+// that depends on the IN-MEMORY capability index, which a restarted process has to rebuild.
+func installBandChannel(w *World) {
+	w.MustGov("band channel", func(ctx sdk.Context) error {
+		app := w.App
+		params := app.OracleKeeper.GetParams(ctx)
+		port, channel := oracletypes.PortID, params.BandChannelSource
+		if channel == "" {
+			return fmt.Errorf("no BandChannelSource in the oracle params")
+		}
+		capPath := host.ChannelCapabilityPath(port, channel)
+		chanCap, err := app.ScopedIBCKeeper.NewCapability(ctx, capPath)
+		if err != nil {
+			return err
+		}
+		if err := app.ScopedOracleKeeper.ClaimCapability(ctx, chanCap, capPath); err != nil {
+			return err
+		}
+		app.IBCKeeper.ChannelKeeper.SetChannel(ctx, port, channel, channeltypes.NewChannel(channeltypes.OPEN, channeltypes.UNORDERED,
+			channeltypes.NewCounterparty(port, "channel-77"), []string{ibcexported.LocalhostConnectionID}, oracletypes.Version))
+		app.IBCKeeper.ChannelKeeper.SetNextSequenceSend(ctx, port, channel, 1)
+		app.IBCKeeper.ChannelKeeper.SetNextSequenceRecv(ctx, port, channel, 1)
+		app.IBCKeeper.ChannelKeeper.SetNextSequenceAck(ctx, port, channel, 1)
+		app.OracleKeeper.SetAssetInfo(ctx, oracletypes.AssetInfo{Denom: "uatom", Display: "ATOM", BandTicker: "ATOM", ElysTicker: "ATOM", Decimal: 6})
+		return nil
+	})
+	// persist it with a committed block
+	if br := w.ExecOp(NewOpLib().Get("empty")); !br.OK() {
+		panic("band channel block: " + br.Err)
 	}
 }
